@@ -463,6 +463,8 @@ def cases(spec, ctx):
             c = CG.rand_seq_case(rng)
         elif kind == "codon":
             c = CG.rand_codon_case(rng)
+        elif kind == "coll" and rng.random() < 0.5:
+            c = CG.rand_exportable_collection_case(rng)
         else:
             c = CG.rand_gene_layer_case(rng, kind)
         c["hseed"] = rng.randrange(1 << 40)
@@ -480,7 +482,7 @@ def _pmode(case):
 def run_case(case, ctx):
     rng = random.Random(case["hseed"])
     kind = case["kind"]
-    pmode = _pmode(case)
+    pmode = _pmode(case) + ("+cut" if case.get("cut", "whole") != "whole" else "")
     try:
         T = CG.build_targets(case)
     except Exception as e:  # noqa: BLE001 - latitude (iv)
@@ -497,7 +499,12 @@ def run_case(case, ctx):
         ctx.bump("catalogue.fixed-arguments-refused", CG.CATALOGUE_REFUSALS[0])
         CG.CATALOGUE_REFUSALS[0] = 0
     questions = [(p, a) for p, accs in cats.items() for a in accs]
+    cut = case.get("cut", "whole")
     ctx.note(("root", kind, pmode, len(T)), nontrivial=False, klass=f"{kind}-on-{pmode}")
+    if cut != "whole":
+        ctx.bump("roots-on-cutting-chunk." + cut)
+    if case.get("flavour") == "exportable":
+        ctx.bump("roots-exportable-collection")
     ctx.bump("targets", len(T))
     for o in T.values():
         ctx.bump("targets." + type(o).__name__)
